@@ -18,6 +18,12 @@ Decides:
                         split of `-x=value` uses the real width of the first character (shared with C02).
  T separator           the pre-consumed `--` marker is the item at the position it was tokenized into (shared with C09).
  R registry             the short-name registry behind `-abc` splitting is complete and wired straight (shared with C02).
+ N name once       a command name is consumed once: the spellings are tried until the FIRST take_cmd succeeds and no further spelling is
+                        compared with the next item afterwards; take_cmd records the matched position (shared with C08).
+ A accept sets      which kinds of item each consumer may claim (ArgWord only as the value of the name in front of it; shared with C05/C09).
+ X repetition exit  whether many/some/count/last/collect go round again depends only on parse_option's result and State::len();
+                        count() adds one on every way from a success to the next round or the exit; only the listed functions call
+                        State::remove / get / set_scope.
 Does not decide: that the composition accepts exactly the declared language and attributes values correctly
 for every shape x vector (language equivalence over run-time data)."""
 from core import *
@@ -28,7 +34,7 @@ from dataflow import *
 LEVEL = 'other'
 EXPLANATION = __doc__
 ASSUMPTIONS = ['user closures and FromStr impls are total and pure', 'the witness forms of construct! cover the documented forms; other call shapes expand through the same macro arms']
-FLOORS = {'C.consumers': 22, 'P.primitives': 13, 'W.construct': 70, 'K3.consult': 120, 'K5.loops': 11, 'O.leftover': 2, 'F.parsecon': 3, 'R.registry': 14, 'L.lossless': 2, 'B.boundaries': 3, 'T.separator': 2}
+FLOORS = {'C.consumers': 22, 'P.primitives': 13, 'W.construct': 70, 'K3.consult': 120, 'K5.loops': 11, 'O.leftover': 2, 'F.parsecon': 3, 'R.registry': 14, 'L.lossless': 2, 'B.boundaries': 3, 'T.separator': 2, 'N.name-once': 2, 'A.accept-sets': 8}
 
 def run(ctx):
     cfgs = ['none', 'all'] if ctx.tier == 'quick' else ['none', 'all', 'ac', 'doc', 'bat']
